@@ -104,7 +104,15 @@ class Run:
                 run1 = (common,) + tuple(extra)
                 ref1 = [refwire.ep4("10.0.8.1", 3099)] + [refwire.ep4("10.0.8.1", 3200 + j, proto=6) for j in range(i)]
             svc = C.Service(sid, iid, maj, minor, options_1=run1, options_2=(o2,), eventgroups=frozenset({1}))
-            self.insts.append(S.ServiceInstance(svc, S.ServerServiceListener(), self.prot.announcer, tm))
+            # the instance's Timings object is either complete when the instance is built, or - as applications that get their
+            # objects from helpers do - filled in afterwards by assigning its fields before anything is started
+            if (variant >> 17) & 1:
+                import dataclasses as _dc
+                itm = _dc.replace(tm, ANNOUNCE_TTL=5 if cfg["ttl"] != 5 else 6)
+                self.insts.append(S.ServiceInstance(svc, S.ServerServiceListener(), self.prot.announcer, itm))
+                itm.ANNOUNCE_TTL = cfg["ttl"]
+            else:
+                self.insts.append(S.ServiceInstance(svc, S.ServerServiceListener(), self.prot.announcer, tm))
             self.ref_opts.append((ref1, [refwire.opt_loadbal(i + (v & 3), 7)]))
         self.script = script
         self.sess = net.PeerSession()
